@@ -61,6 +61,23 @@ pub struct GenCfg {
     pub residue_probes: usize,
     /// after the recipe: drop every operation result and probe every leaf for sole ownership
     pub final_release_probe: bool,
+    /// the sizes a generated dimension may take (empty: 1..=max_size)
+    pub sizes: Vec<usize>,
+    /// binary exponents by which the values of a new leaf are scaled, one per leaf (empty: no scaling)
+    pub mag_exps: Vec<i32>,
+    /// binary exponents by which explicit seeds are scaled (empty: the default table of moderate powers of two)
+    pub seed_exps: Vec<i32>,
+    /// every third leaf: each element additionally scaled by its own 2^j, |j| <= elem_jitter
+    pub elem_jitter: i32,
+}
+
+/// Generator profiles that widen what the small default programs reach.
+#[derive(Clone, Copy, Debug, PartialEq)]
+pub enum Profile {
+    /// dimensions around and beyond typical block lengths (16 .. 130), fewer steps
+    LargeDims,
+    /// leaves and seeds of very different binary magnitudes
+    WideMagnitudes,
 }
 
 impl GenCfg {
@@ -81,7 +98,45 @@ impl GenCfg {
             grad_operands: true,
             residue_probes: 0,
             final_release_probe: false,
+            sizes: vec![],
+            mag_exps: vec![],
+            seed_exps: vec![],
+            elem_jitter: 0,
         }
+    }
+    fn size(&self, sel: u8) -> usize {
+        if self.sizes.is_empty() {
+            1 + ((sel as usize * self.max_size) >> 8)
+        } else {
+            self.sizes[(sel as usize * self.sizes.len()) >> 8]
+        }
+    }
+    /// `single_precision`: the checks run against the f32 build (narrower exponent range)
+    pub fn with_profile(mut self, p: Profile, thorough: bool, single_precision: bool) -> GenCfg {
+        match p {
+            Profile::LargeDims => {
+                self.sizes = vec![1, 2, 3, 2, 4, 5, 8, 9, 16, 17, 33, 64, 65, 96, 97, 128, 130];
+                self.max_rank = self.max_rank.min(3);
+                self.max_elems = if thorough { 2200 } else { 1100 };
+                self.max_steps = self.max_steps.min(if thorough { 14 } else { 9 });
+                // only leaves get tangent directions: the reference stays affordable at these sizes
+                self.dir_budget = 0;
+            }
+            Profile::WideMagnitudes => {
+                if single_precision {
+                    self.mag_exps = vec![-6, -3, 0, 0, 2, 5, 6];
+                    self.seed_exps = vec![0, -8, 6, 0, 10, -4];
+                    self.max_abs = 1e12;
+                    self.elem_jitter = 4;
+                } else {
+                    self.elem_jitter = 26;
+                    self.mag_exps = vec![-40, -28, -12, -3, 0, 0, 0, 4, 11, 21, 30, 40];
+                    self.seed_exps = vec![0, 0, 20, -12, 100, -100, 0, 40, 560, -60];
+                    self.max_abs = 1e60;
+                }
+            }
+        }
+        self
     }
 }
 
@@ -125,11 +180,13 @@ impl<'a> El<'a> {
         if self.cfg.exact_only {
             VKind::Int
         } else {
-            match salt % 4 {
+            match salt % 6 {
                 0 => VKind::Int,
                 1 => VKind::Signed,
                 2 => VKind::Small,
-                _ => VKind::Pos,
+                3 => VKind::Pos,
+                4 => VKind::Real,
+                _ => VKind::PosReal,
             }
         }
     }
@@ -147,7 +204,15 @@ impl<'a> El<'a> {
             return None;
         }
         let seed = u64::from_le_bytes(*i) ^ (self.steps.len() as u64) << 40;
-        let vals = gen_vals(seed, numel(&dims), self.vkind(i[7] >> 2));
+        let mut vals = gen_vals(seed, numel(&dims), self.vkind(i[7] >> 2));
+        if !self.cfg.mag_exps.is_empty() && !self.cfg.exact_only {
+            let e = self.cfg.mag_exps[(mix(seed ^ 0x51) % self.cfg.mag_exps.len() as u64) as usize];
+            let k = 2f64.powi(e);
+            vals.iter_mut().for_each(|v| *v *= k);
+            if mix(seed ^ 0x77) % 3 == 0 {
+                spread(&mut vals, seed, self.cfg.elem_jitter);
+            }
+        }
         let tracked = force_tracked.unwrap_or((mix(seed) % 100) < self.cfg.tracked_pct as u64);
         if self.emit(Step::Leaf { dims, vals, tracked }) {
             Some(self.m.handles.len() - 1)
@@ -157,7 +222,7 @@ impl<'a> El<'a> {
     }
     fn leaf_dims(&self, b: &[u8]) -> Vec<usize> {
         let rank = 1 + ((b[0] as usize * self.cfg.max_rank) >> 8);
-        (0..rank).map(|k| 1 + ((b[1 + k % (b.len() - 1)] as usize * self.cfg.max_size) >> 8)).collect()
+        (0..rank).map(|k| self.cfg.size(b[1 + k % (b.len() - 1)])).collect()
     }
     /// is applying `op` to `args` admissible, in-domain, small and bounded? returns the result tensor
     fn try_eval(&self, op: &OpKind, args: &[usize]) -> Option<T> {
@@ -270,12 +335,22 @@ impl<'a> El<'a> {
         // the dot product of two vectors
         if ad.len() == 1 && i[3] % 3 == 0 {
             if let Some(b) = self.new_leaf(vec![ad[0]], i, None) {
+                // sometimes with an additive term: an existing one-element array (often an operation result) or a new leaf
+                if i[7] % 3 == 0 {
+                    let ones: Vec<usize> = self.operands().into_iter().filter(|&h| h != b && self.dims(h) == vec![1]).collect();
+                    let c = if !ones.is_empty() && i[7] % 2 == 0 { Some(pick(i[6], &ones)) } else { self.new_leaf(vec![1], &[i[7], i[6], i[5], i[4], i[3], i[2], i[1], i[0]], None) };
+                    if let Some(c) = c {
+                        if self.apply(OpKind::Matmul { ta: false, tb: false, has_c: true }, vec![a, b, c]) {
+                            return true;
+                        }
+                    }
+                }
                 return self.apply(OpKind::Matmul { ta: false, tb: false, has_c: false }, vec![a, b]);
             }
         }
         // synthesise b (and maybe an additive term)
         let (la, r, k) = if ad.len() == 1 { (vec![], 1, ad[0]) } else { (ad[..ad.len() - 2].to_vec(), if ta { ad[ad.len() - 1] } else { ad[ad.len() - 2] }, if ta { ad[ad.len() - 2] } else { ad[ad.len() - 1] }) };
-        let cols = 1 + ((i[5] as usize * self.cfg.max_size) >> 8);
+        let cols = self.cfg.size(i[5]);
         let lb: Vec<usize> = match i[6] % 5 {
             0 | 1 => vec![],
             2 => la.clone(),
@@ -318,8 +393,7 @@ impl<'a> El<'a> {
             pick(i[1], &cands)
         } else {
             let depth = 1 + (i[1] as usize % 2);
-            let rows = 1 + ((i[2] as usize * 4) >> 8);
-            let cols = 1 + ((i[3] as usize * 4) >> 8);
+            let (rows, cols) = if self.cfg.sizes.is_empty() { (1 + ((i[2] as usize * 4) >> 8), 1 + ((i[3] as usize * 4) >> 8)) } else { (self.cfg.size(i[2]).min(12), self.cfg.size(i[3]).min(40)) };
             let mut d = if i[4] % 4 == 3 { vec![2] } else { vec![] };
             d.extend([depth, rows, cols]);
             match self.new_leaf(d, i, None) {
@@ -432,7 +506,7 @@ impl<'a> El<'a> {
         let root = live[live.len() - 1 - ((i[1] as usize * live.len()) >> 8)];
         let n = self.m.node_of(root).t.numel();
         // seeds of very different magnitudes across the passes of one history (exact powers of two)
-        let scale = [1.0, 1.0, 1.0, 1048576.0, 1.0 / 4096.0, 1.0, 16777216.0, 1.0][(i[4] as usize >> 2) % 8];
+        let scale = if self.cfg.seed_exps.is_empty() || self.cfg.exact_only { [1.0, 1.0, 1.0, 1048576.0, 1.0 / 4096.0, 1.0, 16777216.0, 1.0][(i[4] as usize >> 2) % 8] } else { 2f64.powi(self.cfg.seed_exps[(i[4] as usize >> 2) % self.cfg.seed_exps.len()]) };
         let seed = match i[4] % 4 {
             0 => None,
             _ => Some(gen_vals(u64::from_le_bytes(*i), n, if self.cfg.exact_only { VKind::Int } else { VKind::Small }).into_iter().map(|v| v * scale).collect()),
